@@ -106,7 +106,7 @@ FRAME_KANI_BOUNDED = [
 
 PROPS['C01'] = {
     'level': 'proof',
-    'verus': [{'tmpl': 'frame.rs.tmpl', 'obligations': FRAME_VERUS_ENC + ['Frame::from_bytes',
+    'verus': [{'tmpl': 'frame.rs.tmpl', 'obligations': FRAME_VERUS_ENC + ['Frame::from_bytes', 'c01_wire_trip', 'c01_wire_trip_newline',
                'lemma_roundtrip', 'lemma_roundtrip_nl', 'lemma_enc_format', 'lemma_sum_zero', 'lemma_enc_chars', 'lemma_pairs',
                'lemma_nibbles', 'lemma_digit', 'lemma_addr', 'lemma_dec_strip', 'lemma_shape_groups', 'lemma_group_names',
                'lemma_hex_num2', 'lemma_hex_num4', 'lemma_lrc_is_neg_sum']}],
@@ -138,12 +138,12 @@ PROPS['C05'] = {
         H('c05_message_frame_message_identity', covers=6),
         H('c05_distinct_messages_distinct_frames', covers=2, tier='thorough'),
     ] + FRAME_KANI_CONTRACTS}],
-    'verus': [{'tmpl': 'frame.rs.tmpl', 'obligations': FRAME_VERUS_ENC + ['Frame::from_bytes', 'lemma_roundtrip', 'lemma_roundtrip_nl',
+    'verus': [{'tmpl': 'frame.rs.tmpl', 'obligations': FRAME_VERUS_ENC + ['Frame::from_bytes', 'c01_wire_trip', 'c01_wire_trip_newline', 'lemma_roundtrip', 'lemma_roundtrip_nl',
                'lemma_enc_chars', 'lemma_pairs', 'lemma_nibbles', 'lemma_digit', 'lemma_addr', 'lemma_dec_strip', 'lemma_shape_groups', 'lemma_group_names']}],
     'tools': [{'kind': 'regexeq'}, {'kind': 'witness', 'domains': ['message'], 'bound': 'all 256 types x 256 first bytes x lengths {0,1,2,3,16,255} x 3 addresses; 5 addresses x every specific kind through the real wire codec'}],
     'functions': MSG_FNS + FRAME_FNS,
     'assumptions': [A_TOOLS, A_DEBUG, A_USIZE, A_COW, A_INTO, A_REGEX, A_CHUNKS, A_SPEC,
-                    'composition: message -> frame -> wire -> frame -> message is the composition of the Kani identity Message::from(Frame::from(m)) == m (all specific messages) with the Verus contracts to_bytes == enc, from_bytes == dec and the lemma dec(enc(f)) == Ok(f); the composition step itself is a two-line argument, not a mechanised obligation',
+                    'composition: message -> frame -> wire -> frame -> message is the composition of the Kani identity Message::from(Frame::from(m)) == m (all specific messages) with the Verus contracts to_bytes == enc, from_bytes == dec and the lemma dec(enc(f)) == Ok(f); the wire leg is additionally executed as one obligation (c01_wire_trip / c01_wire_trip_newline: the real from_bytes applied to the real to_bytes returns Ok with the same address, type and data, for every frame); what is left unmechanised is only that Message::from gives equal messages on frames with equal address, type and data bytes (it reads nothing else: Frame has no other field)',
                     'injectivity ("two different specific messages never share a wire encoding") is a corollary of the two left inverses; additionally checked directly by c05_distinct_messages_distinct_frames in the thorough tier'],
     'explanation': 'Message leg: loop-free Kani harness over every specific message (10 kinds x any u16 x 13 states x 6 operations x data of length 0..=255). Wire leg: the C01 obligations.',
 }
@@ -243,8 +243,9 @@ PROPS['C17'] = {
 
 SERIAL_EVENT = [H('c16_c18_event_order_reply_due', covers=4), H('c16_c18_event_order_one_way', covers=2),
                 H('c16_c18_event_order_data', covers=2), H('c16_c18_event_order_unknown', covers=1)]
-A_STUBS = ('callee contracts assumed: Frame::write(port) writes exactly to_bytes_with_newline() of the frame or fails; Frame::read(port) consumes exactly one line and returns its decoding or fails '
-           '(their behaviour on real byte streams is the subject of C15; their codec is C01/C03). In the harness they are contract stubs that append to an event log')
+A_STUBS = ('callee contracts used: Frame::write(port) writes exactly to_bytes_with_newline() of the frame or fails; Frame::read(port) consumes exactly one line and returns its decoding or fails. '
+           'These are the contracts PROVED for the extracted Frame::write / Frame::read by the Verus unit of C15 (relative to the assumed std::io contracts A-std-io); their codec is C01/C03. '
+           'In the Kani harness they are contract stubs that append to an event log; the correspondence between the stub text and the Verus contract is by inspection')
 
 PROPS['C16'] = {
     'level': 'proof',
